@@ -336,6 +336,93 @@ theorem pi_tie (v : G_PrefixInformation) :
   · cases v.OnLink <;> cases v.AutonomousAddressConfiguration <;>
     simp [hm, make30, setI_0, setI_1, idxI_1, putBE32I, pokeAt, copy_tail16c, rawOption_tie, rawOptMarshal, pad16_length, be32Bytes]
 
+/-! ### `(*RouteInformation).marshal` -/
+
+theorem copy_tailm (H s : Bytes) (m : Nat) :
+    copyI (H ++ List.replicate m 0) (H.length : Int) ((H.length : Int) + (m : Int)) s =
+      .ok (H ++ padTo m s, ((s.take m).length : Int)) := by
+  unfold copyI
+  have c : (0 : Int) ≤ (H.length : Int) ∧ (H.length : Int) ≤ (H.length : Int) + (m : Int) ∧
+      (H.length : Int) + (m : Int) ≤ ((H ++ List.replicate m (0 : UInt8)).length : Int) := by
+    simp only [List.length_append, List.length_replicate]; omega
+  rw [if_pos c]
+  have e1 : ((H.length : Int) + (m : Int) - (H.length : Int)).toNat = m := by omega
+  simp only [e1, Int.toNat_natCast, List.take_left', Outcome.ok.injEq, Prod.mk.injEq, and_true]
+  rw [List.drop_append, List.drop_of_length_le (by omega : H.length ≤ H.length + (s.take m).length)]
+  simp only [Nat.add_sub_cancel_left, List.drop_replicate, List.nil_append, padTo]
+
+theorem copy6_0 (a0 a1 a2 a3 a4 a5 : UInt8) (s : Bytes) :
+    copyI [a0, a1, a2, a3, a4, a5] 6 6 s = .ok ([a0, a1, a2, a3, a4, a5], 0) := by
+  have := copy_tailm [a0, a1, a2, a3, a4, a5] s 0
+  simpa [padTo] using this
+
+theorem copy6_8 (a0 a1 a2 a3 a4 a5 : UInt8) (s : Bytes) :
+    copyI [a0, a1, a2, a3, a4, a5, 0, 0, 0, 0, 0, 0, 0, 0] 6 14 s =
+      .ok (a0 :: a1 :: a2 :: a3 :: a4 :: a5 :: padTo 8 s, ((s.take 8).length : Int)) :=
+  copy_tailm [a0, a1, a2, a3, a4, a5] s 8
+
+theorem copy6_16 (a0 a1 a2 a3 a4 a5 : UInt8) (s : Bytes) :
+    copyI [a0, a1, a2, a3, a4, a5, 0, 0, 0, 0, 0, 0, 0, 0, 0, 0, 0, 0, 0, 0, 0, 0] 6 22 s =
+      .ok (a0 :: a1 :: a2 :: a3 :: a4 :: a5 :: padTo 16 s, ((s.take 16).length : Int)) :=
+  copy_tailm [a0, a1, a2, a3, a4, a5] s 16
+
+theorem padTo_length (m : Nat) (s : Bytes) : (padTo m s).length = m := by
+  simp [padTo]; omega
+
+theorem u8_eq_zero (p : UInt8) : p = 0 ↔ p.toNat = 0 := by
+  constructor
+  · intro h; simp [h]
+  · intro h; exact UInt8.toNat_inj.mp (by simpa using h)
+
+theorem ri_tie (v : G_RouteInformation) :
+    genRouteInformation_marshal v = routeInfoMarshal v.PrefixLength (intToUInt8 v.Preference) (durSecondsU32 v.RouteLifetime)
+      v.Prefix (ipEqual v.Prefix (ipMask v.Prefix (cidrMask (v.PrefixLength.toNat : Int) 128))) := by
+  unfold genRouteInformation_marshal routeInfoMarshal genRouteInformation_Code
+  have i0 : intToUInt8 0 = 0 := rfl
+  have i1 : intToUInt8 1 = 1 := rfl
+  have i2 : intToUInt8 2 = 2 := rfl
+  have z3 : (0 : UInt8) <<< (3 : UInt8) = 0 := rfl
+  dsimp only
+  generalize ipEqual v.Prefix (ipMask v.Prefix (cidrMask (v.PrefixLength.toNat : Int) 128)) = mk
+  cases mk
+  · simp
+  · generalize hq : intToUInt8 v.Preference = q
+    have hc : v.PrefixLength.toNat = 0 ∨ (0 < v.PrefixLength.toNat ∧ v.PrefixLength.toNat < 65) ∨
+        (64 < v.PrefixLength.toNat ∧ v.PrefixLength.toNat < 129) ∨ 129 ≤ v.PrefixLength.toNat := by omega
+    rcases hc with h | h | h | h
+    · have e : v.PrefixLength = 0 := (u8_eq_zero _).mpr h
+      by_cases hp : q = 0 <;>
+      simp [e, hp, i0, z3, makeBytes, List.replicate, setI_0, setI_1, idxI_1, putBE32I, pokeAt, copy6_0, rawOption_tie,
+        rawOptMarshal, be32Bytes]
+    · have e : ¬ v.PrefixLength = 0 := fun x => by rw [(u8_eq_zero _).mp x] at h; omega
+      have a : v.PrefixLength > 0 ∧ v.PrefixLength < 65 := by
+        constructor <;> (apply UInt8.lt_iff_toNat_lt.mpr; simp; omega)
+      have a' : v.PrefixLength < 65 := a.2
+      by_cases hp : q = 0 <;>
+      simp [e, a, hp, i1, z3, makeBytes, List.replicate, setI_0, setI_1, idxI_1, putBE32I, pokeAt, copy6_8,
+        rawOption_tie, rawOptMarshal, be32Bytes, padTo_length]
+    · have e : ¬ v.PrefixLength = 0 := fun x => by rw [(u8_eq_zero _).mp x] at h; omega
+      have a : ¬ (v.PrefixLength > 0 ∧ v.PrefixLength < 65) := fun x => by
+        have := UInt8.lt_iff_toNat_lt.mp x.2; simp at this; omega
+      have a' : ¬ v.PrefixLength < 65 := fun x => by
+        have := UInt8.lt_iff_toNat_lt.mp x; simp at this; omega
+      have b : v.PrefixLength > 64 ∧ v.PrefixLength < 129 := by
+        constructor <;> (apply UInt8.lt_iff_toNat_lt.mpr; simp; omega)
+      have b' : v.PrefixLength < 129 := b.2
+      by_cases hp : q = 0 <;>
+      simp [e, a', b, hp, i2, z3, makeBytes, List.replicate, setI_0, setI_1, idxI_1, putBE32I, pokeAt, copy6_16,
+        rawOption_tie, rawOptMarshal, be32Bytes, padTo_length]
+    · have e : ¬ v.PrefixLength = 0 := fun x => by rw [(u8_eq_zero _).mp x] at h; omega
+      have a : ¬ (v.PrefixLength > 0 ∧ v.PrefixLength < 65) := fun x => by
+        have := UInt8.lt_iff_toNat_lt.mp x.2; simp at this; omega
+      have a' : ¬ v.PrefixLength < 65 := fun x => by
+        have := UInt8.lt_iff_toNat_lt.mp x; simp at this; omega
+      have b : ¬ (v.PrefixLength > 64 ∧ v.PrefixLength < 129) := fun x => by
+        have := UInt8.lt_iff_toNat_lt.mp x.2; simp at this; omega
+      have b' : ¬ v.PrefixLength < 129 := fun x => by
+        have := UInt8.lt_iff_toNat_lt.mp x; simp at this; omega
+      simp [e, a', b']
+
 /-! ### `o.marshal()`: which encoder each dynamic type reaches -/
 
 theorem option_dispatch (e1 : G_DNSSearchList → Outcome Bytes) :
@@ -348,8 +435,9 @@ theorem option_dispatch (e1 : G_DNSSearchList → Outcome Bytes) :
       (durSecondsU32 v.ValidLifetime) (durSecondsU32 v.PreferredLifetime) v.Prefix
       (ipEqual v.Prefix (ipMask v.Prefix (cidrMask (v.PrefixLength.toNat : Int) 128)))) ∧
     (∀ v, optEnc e1 (.RecursiveDNSServer v) = rdnssMarshal (durSecondsU32 v.Lifetime) v.Servers) ∧
-    (∀ v, optEnc e1 (.RouteInformation v) = genRouteInformation_marshal v) :=
-  ⟨rfl, fun v => lla_tie v, fun v => mtu_tie v, fun v => rawOption_tie v, fun _ => rfl, fun v => pi_tie v, fun v => rdnss_tie v, fun _ => rfl⟩
+    (∀ v, optEnc e1 (.RouteInformation v) = routeInfoMarshal v.PrefixLength (intToUInt8 v.Preference)
+      (durSecondsU32 v.RouteLifetime) v.Prefix (ipEqual v.Prefix (ipMask v.Prefix (cidrMask (v.PrefixLength.toNat : Int) 128)))) :=
+  ⟨rfl, fun v => lla_tie v, fun v => mtu_tie v, fun v => rawOption_tie v, fun _ => rfl, fun v => pi_tie v, fun v => rdnss_tie v, fun v => ri_tie v⟩
 
 /-- the message `ICMP6SendRouterSolicitation` builds (one source link-layer address option with the NIC's MAC): for
     every 6-byte MAC it is the 16-byte router solicitation of RFC 4861 4.1 -/
